@@ -6,7 +6,7 @@
     PARTIAL: the round-trip theorem parse(print c) = abs c is proved here for the stream-selector
     sub-grammar with an unbounded number of matchers; for the rest of the grammar it is established by the
     correspondence against generator-computed expectations, not by a theorem (see DESIGN.md). *)
-From LogQLV Require Import Base.Bytes Base.FloatX Model.Tables Model.Syntax Model.Parser Proofs.ParserP Proofs.PipelineP Proofs.LogRangeP Proofs.QueryP Proofs.UnwrapP Model.Lexer Proofs.LexerP Proofs.LexParseP.
+From LogQLV Require Import Base.Bytes Base.FloatX Model.Tables Model.Syntax Model.Parser Proofs.ParserP Proofs.PipelineP Proofs.LogRangeP Proofs.QueryP Proofs.UnwrapP Model.Lexer Proofs.LexerP Proofs.LexerTightP Proofs.LexParseP.
 
 (** every selector {l1 op1 "v1", ..., ln opn "vn"} with any number of matchers, all four operators, any value bytes (regex
     values that compile) and any label names -- whether the lexer classifies a name as Ident or as a keyword (by, on, json,
@@ -186,6 +186,18 @@ Proof.
   - cbn. tauto.
 Qed.
 
+(** ... and white space is needed only where two tokens would otherwise run together: [seps_ok l] asks, for every token written with NO
+    white space after it, that the next character cannot continue it ([boundary]: after an identifier or keyword no identifier
+    character, after a one-character operator nothing that forms a two-character operator, comment or flag with it, after a number
+    no digit / letter / underscore / dot, after a duration no unit or digit; after a string or a two-character operator anything) *)
+Theorem lex_layout_tight : forall l : list (ltok * bytes), Forall (fun x => wf_ltok (fst x)) l -> seps_ok l -> fun_ok l ->
+  lex (layout l) = LexOk (map (fun p => lres (fst p)) l).
+Proof. exact lex_layout_tight_lemma. Qed.
+Print Assumptions lex_layout_tight.
+
+Theorem spaced_layouts_qualify : forall l : list (ltok * bytes), Forall (fun x => all_space (snd x)) l -> seps_ok l.
+Proof. exact seps_spaced. Qed.
+
 (** lexer and parser composed.  [ltok_of t] is how a parser token is written (a string literal with quote and backslash escaped, an
     identifier, a keyword or operator by its spelling); [lexable t] says that this writing is in the lexer fragment above and that
     the token carries only what the driver attaches to a lexed token ([tok_of]: string tokens receive the results of compiling
@@ -193,7 +205,7 @@ Qed.
     tokens. *)
 Theorem lex_tokens :
   forall (anch : bytes -> bool) (re_names : bytes -> option (list bytes)) (dur : bytes -> option Z) (ts : list token) (l : list (ltok * bytes)),
-  map fst l = map ltok_of ts -> Forall (fun x => all_space (snd x)) l -> Forall (lexable anch re_names dur) ts -> funs_ok (map ltok_of ts) ->
+  map fst l = map ltok_of ts -> seps_ok l -> Forall (lexable anch re_names dur) ts -> funs_ok (map ltok_of ts) ->
   exists toks, lex (layout l) = LexOk toks /\ map (tok_of anch re_names dur) toks = ts.
 Proof. exact lex_tokens_lemma. Qed.
 Print Assumptions lex_tokens.
@@ -204,7 +216,7 @@ Print Assumptions lex_tokens.
     compile ([text_matcher]).  The text lexes, and the parser returns exactly the matchers. *)
 Theorem selector_text_parse :
   forall (anch : bytes -> bool) (re_names : bytes -> option (list bytes)) (dur : bytes -> option Z) (ms : list matcher) (l : list (ltok * bytes)) (p r : list token) (fuel : nat),
-  map fst l = map ltok_of (print_selector anch re_names kw_cls ms) -> Forall (fun x => all_space (snd x)) l ->
+  map fst l = map ltok_of (print_selector anch re_names kw_cls ms) -> seps_ok l ->
   Forall (text_matcher anch) ms -> (length ms < fuel)%nat ->
   exists toks, lex (layout l) = LexOk toks /\
     parse_selector fuel {| prev := p; rest := map (tok_of anch re_names dur) toks ++ r |} =
@@ -219,7 +231,7 @@ Print Assumptions selector_text_parse.
 Theorem log_query_text_parse :
   forall (anch : bytes -> bool) (re_names : bytes -> option (list bytes)) (dur : bytes -> option Z) (sel : list matcher) (sts : list stage) (l : list (ltok * bytes)),
   map fst l = map ltok_of (print_selector anch re_names kw_cls sel ++ print_stages anch re_names sts) ->
-  Forall (fun x => all_space (snd x)) l ->
+  seps_ok l ->
   Forall (text_matcher anch) sel -> Forall text_stage sts -> chain_ok anch re_names sts [] ->
   exists toks, lex (layout l) = LexOk toks /\ parse_tokens (map (tok_of anch re_names dur) toks) = Parsed (ELog sel sts).
 Proof. exact log_query_text_lemma. Qed.
@@ -231,7 +243,7 @@ Theorem range_agg_text_parse :
   forall (anch : bytes -> bool) (re_names : bytes -> option (list bytes)) (dur : bytes -> option Z)
          (o : rangeop) (sel : list matcher) (sts : list stage) (rtxt : bytes) (rns : Z) (off : option (bytes * Z)) (l : list (ltok * bytes)),
   map fst l = map ltok_of (print_range_agg anch re_names kw_cls o sel sts rtxt rns off) ->
-  Forall (fun x => all_space (snd x)) l ->
+  seps_ok l ->
   range_validate o None None false = true ->
   Forall (text_matcher anch) sel -> Forall text_stage sts -> chain_ok anch re_names sts (print_range rtxt rns off ++ [plain TCloseParen (spelling TCloseParen)]) ->
   text_dur dur rtxt rns -> text_offset dur off ->
@@ -247,7 +259,7 @@ Theorem vec_agg_text_parse :
   forall (anch : bytes -> bool) (re_names : bytes -> option (list bytes)) (dur : bytes -> option Z)
          (v : vectorop) (g : grouping) (o : rangeop) (sel : list matcher) (sts : list stage) (rtxt : bytes) (rns : Z) (off : option (bytes * Z)) (l : list (ltok * bytes)),
   map fst l = map ltok_of (print_vec_agg anch re_names kw_cls v g o sel sts rtxt rns off) ->
-  Forall (fun x => all_space (snd x)) l ->
+  seps_ok l ->
   vector_validate v None (Some g) = true -> range_validate o None None false = true -> text_names (g_labels g) ->
   Forall (text_matcher anch) sel -> Forall text_stage sts ->
   chain_ok anch re_names sts (print_range rtxt rns off ++ [plain TCloseParen (spelling TCloseParen); plain TCloseParen (spelling TCloseParen)]) ->
@@ -269,7 +281,7 @@ Example vec_agg_text_example :
   let off := Some (h1, 3600000000000) in
   let toks := print_vec_agg anch rn kw_cls VectorOpSum g RangeOpRate sel sts m5 300000000000 off in
   let l := map (fun t => (ltok_of t, if ttype_eqb (ty t) TComma then [x0a; x09] else [" "%byte])) toks in
-  map fst l = map ltok_of toks /\ Forall (fun x => all_space (snd x)) l /\ Forall (text_matcher anch) sel /\ Forall text_stage sts /\
+  map fst l = map ltok_of toks /\ seps_ok l /\ Forall (text_matcher anch) sel /\ Forall text_stage sts /\
   text_names (g_labels g) /\ text_dur dur m5 300000000000 /\ text_offset dur off /\
   firstn 16 (layout l) = [ "s"; "u"; "m"; " "; "w"; "i"; "t"; "h"; "o"; "u"; "t"; " "; "("; " "; "a"; " " ]%byte /\
   match lex (layout l) with
@@ -298,7 +310,7 @@ Example log_query_text_example :
   let sts := [SLine OpEq ["1"%byte] true; SDrop [["a"%byte]; ["b"%byte]] []; SLabelFormat [(["d"%byte], ["c"%byte])] [(["e"%byte], ["t"%byte])]] in
   let toks := print_selector anch rn kw_cls sel ++ print_stages anch rn sts in
   let l := map (fun t => (ltok_of t, if ttype_eqb (ty t) TComma then [x0a; x09] else [" "%byte])) toks in
-  map fst l = map ltok_of toks /\ Forall (fun x => all_space (snd x)) l /\ Forall (text_matcher anch) sel /\ Forall text_stage sts /\
+  map fst l = map ltok_of toks /\ seps_ok l /\ Forall (text_matcher anch) sel /\ Forall text_stage sts /\
   chain_ok anch rn sts [] /\
   firstn 14 (layout l) = [ "{"; " "; "b"; "y"; " "; "="; " "; """"; "v"; "\"; """"; """"; " "; "," ]%byte /\
   match lex (layout l) with
@@ -320,6 +332,36 @@ Proof.
        end; try reflexivity; try exact I.
   all: try (left; reflexivity).
   all: try (left; discriminate).
+Qed.
+
+(** non-vacuity for layouts WITHOUT white space: the texts  {app="x",env=~"p"}|="err"|json  and
+    sum by(a)(rate({app="x"}[5m]))  (one blank, after sum) satisfy the hypotheses and denote their trees *)
+Example tight_text_example :
+  let anch := fun _ : bytes => true in
+  let rn := fun _ : bytes => Some (@nil bytes) in
+  let m5 := ["5"%byte; "m"%byte] in
+  let dur := fun t : bytes => if bytes_eqb t m5 then Some 300000000000 else None in
+  let app := ["a"%byte; "p"%byte; "p"%byte] in let env := ["e"%byte; "n"%byte; "v"%byte] in
+  let sel2 := [ {| m_label := app; m_op := OpEq; m_value := ["x"%byte] |}; {| m_label := env; m_op := OpRe; m_value := ["p"%byte] |} ] in
+  let sts := [SLine OpEq ["e"%byte; "r"%byte; "r"%byte] false; SJson [] []] in
+  let toks1 := print_selector anch rn kw_cls sel2 ++ print_stages anch rn sts in
+  let l1 := map (fun t => (ltok_of t, @nil byte)) toks1 in
+  let sel1 := [ {| m_label := app; m_op := OpEq; m_value := ["x"%byte] |} ] in
+  let g := {| g_labels := [["a"%byte]]; g_without := false |} in
+  let toks2 := print_vec_agg anch rn kw_cls VectorOpSum g RangeOpRate sel1 [] m5 300000000000 None in
+  let l2 := map (fun t => (ltok_of t, if ttype_eqb (ty t) TSum then [" "%byte] else [])) toks2 in
+  (seps_ok l1 /\
+   layout l1 = [ "{"; "a"; "p"; "p"; "="; """"; "x"; """"; ","; "e"; "n"; "v"; "="; "~"; """"; "p"; """"; "}"; "|"; "="; """"; "e"; "r"; "r"; """"; "|"; "j"; "s"; "o"; "n" ]%byte /\
+   match lex (layout l1) with LexOk lexed => parse_tokens (map (tok_of anch rn dur) lexed) = Parsed (ELog sel2 sts) | _ => False end) /\
+  (seps_ok l2 /\
+   layout l2 = [ "s"; "u"; "m"; " "; "b"; "y"; "("; "a"; ")"; "("; "r"; "a"; "t"; "e"; "("; "{"; "a"; "p"; "p"; "="; """"; "x"; """"; "}"; "["; "5"; "m"; "]"; ")"; ")" ]%byte /\
+   match lex (layout l2) with
+   | LexOk lexed => parse_tokens (map (tok_of anch rn dur) lexed) = Parsed (EVecAgg VectorOpSum (range_expr RangeOpRate sel1 [] 300000000000 None) None (Some g))
+   | _ => False end).
+Proof.
+  cbv zeta. split; (split; [|split; vm_compute; reflexivity]).
+  - vm_compute. repeat split; try reflexivity; intros _; repeat split; reflexivity.
+  - vm_compute. repeat split; try reflexivity; try discriminate; intros _; repeat split; reflexivity.
 Qed.
 
 (** static rules *)
